@@ -85,6 +85,42 @@ pub fn kinds() -> Vec<Kind> {
     v
 }
 
+/// wider constructors, used at depth 1 only (6 probes: 5^6 histories each)
+fn wide_kinds() -> Vec<Kind> {
+    vec![
+        Kind { label: "List6".into(), arity: 6, build: Arc::new(RE::List) },
+        Kind {
+            label: "Map6".into(),
+            arity: 6,
+            build: Arc::new(|c| RE::Map(["k10", "k2", "k1", "K", "z", "a"].iter().map(|k| k.to_string()).zip(c).collect())),
+        },
+        Kind {
+            label: "IfChain".into(),
+            arity: 5,
+            build: Arc::new(|mut c| {
+                let e = c.pop().unwrap();
+                let t2 = c.pop().unwrap();
+                let c2 = c.pop().unwrap();
+                let t1 = c.pop().unwrap();
+                let c1 = c.pop().unwrap();
+                RE::iff(c1, t1, RE::iff(c2, t2, e))
+            }),
+        },
+        Kind {
+            label: "AndOrChain".into(),
+            arity: 5,
+            build: Arc::new(|mut c| {
+                let e = c.pop().unwrap();
+                let d = c.pop().unwrap();
+                let cc = c.pop().unwrap();
+                let b = c.pop().unwrap();
+                let a = c.pop().unwrap();
+                RE::bin(BinOp::Or, RE::bin(BinOp::And, RE::bin(BinOp::Or, a, b), RE::bin(BinOp::And, cc, d)), e)
+            }),
+        },
+    ]
+}
+
 fn probe_leaf(n: &mut i128) -> RE {
     let e = RE::call("p", RE::Val(RV::Int(*n)));
     *n += 1;
@@ -101,6 +137,11 @@ fn shapes(tier: Tier) -> Vec<Shape> {
     let mut out = Vec::new();
     // depth 1
     for k in &ks {
+        let mut n = 0;
+        let children: Vec<RE> = (0..k.arity).map(|_| probe_leaf(&mut n)).collect();
+        out.push(Shape { label: k.label.clone(), tree: (k.build)(children) });
+    }
+    for k in &wide_kinds() {
         let mut n = 0;
         let children: Vec<RE> = (0..k.arity).map(|_| probe_leaf(&mut n)).collect();
         out.push(Shape { label: k.label.clone(), tree: (k.build)(children) });
